@@ -502,6 +502,32 @@ fn dev_modes() -> bool {
         }
         return true;
     }
+    if let Ok(key) = std::env::var("VERIF_C22_SHAPE_RUN") {
+        // run generated cases of one finding shape and print the ones that fail
+        let n: usize = std::env::var("VERIF_C22_N").ok().and_then(|s| s.parse().ok()).unwrap_or(40);
+        let seed: u64 = std::env::var("VERIF_SEED").ok().and_then(|s| s.parse().ok()).unwrap_or(1);
+        let shape = Hz::from_key(&key);
+        for i in 0..n {
+            let mut s = seed.wrapping_mul(1_000_003).wrapping_add(i as u64);
+            let ch: Vec<u32> = (0..8000).map(|_| splitmix(&mut s) as u32).collect();
+            let r = on_thread(move || {
+                let mut d = Draw::new(ch);
+                let mut allow = BTreeSet::new();
+                if let Some(h) = shape {
+                    allow.insert(h);
+                }
+                let c = svgen::gen_case(&mut d, &allow);
+                let mut dv = |w: usize| Bv::zeros(w, false).not();
+                let mut mr = || false;
+                let run = pipeline(&c.sv, &c.sv_sim, &c.top, &c.clock, 6, &mut dv, &mut mr);
+                failure_of(&run).map(|(stage, _, msg)| format!("// ---- case {i}: {stage} hazards={:?}\n{msg}\n{}\n----- veryl\n{}", c.hazards, c.sv, run.veryl))
+            });
+            if let Some(Some(t)) = r {
+                println!("{t}");
+            }
+        }
+        return true;
+    }
     if let Ok(n) = std::env::var("VERIF_C22_DUMP") {
         let n: usize = n.parse().unwrap_or(3);
         let seed: u64 = std::env::var("VERIF_SEED").ok().and_then(|s| s.parse().ok()).unwrap_or(1);
